@@ -218,7 +218,7 @@ func (c *Ctx) KeepAlive(label string) (stop func()) {
 // Tick is called once per executed case; it checks the deadline every 512 calls.
 func (c *Ctx) Tick() bool {
 	c.ticks++
-	if c.ticks&511 == 0 {
+	if c.ticks&63 == 0 {
 		return c.Expired()
 	}
 	return !c.res.Exhaustive && c.expired
